@@ -181,6 +181,9 @@ func (g *pgen) call(depth int) string {
 		for i := 1; i < n && i < len(all); i++ {
 			args = append(args, g.argOfKind(all[i], depth))
 		}
+		if name == "pad" && len(args) >= 1 {
+			args[0] = []string{"0", "1", "-1", "5", "-7", "12", "2.5", "30"}[g.r.intn(8)]
+		}
 		return g.argOfKind(all[0], depth) + ".$" + name + "(" + strings.Join(args, ", ") + ")"
 	}
 	all := req + opt
@@ -191,6 +194,10 @@ func (g *pgen) call(depth int) string {
 			k = all[i]
 		}
 		args[i] = g.argOfKind(k, depth)
+	}
+	if name == "pad" && len(args) >= 2 {
+		// the property bounds the sizes of paddings: the width is a small literal, never computed from data
+		args[1] = []string{"0", "1", "-1", "5", "-7", "12", "2.5", "30"}[g.r.intn(8)]
 	}
 	return "$" + name + "(" + strings.Join(args, ", ") + ")"
 }
